@@ -1,0 +1,13 @@
+//go:build verif
+
+package mfs
+
+// VerifRepubSched, when non-nil, is called at the schedule points of the
+// Republisher (verification builds only). Set it before creating one.
+var VerifRepubSched func(point string)
+
+func verifRepubPoint(p string) {
+	if f := VerifRepubSched; f != nil {
+		f(p)
+	}
+}
